@@ -225,6 +225,7 @@ fn placeholder_ring() -> super::SimRing {
         sqpoll_idle: false,
         sqpoll_auto: false,
         submitter_tid: None,
+        prep_refuse: Vec::new(),
         posted: Vec::new(),
         next_seq: 0,
         sync_cancels: 0,
@@ -261,6 +262,18 @@ impl Sim {
                 }
             }
             self.dispatch_builtin(idx, *serial);
+            // K15: a submission refused while it is being submitted gets its
+            // error completion at once and, unless the ring was set up with
+            // IORING_SETUP_SUBMIT_ALL, ends the batch (it counts as submitted).
+            if let Some(pos) = self.rings[idx].prep_refuse.iter().position(|(ud, _)| *ud == sqe.user_data) {
+                let (_, e) = self.rings[idx].prep_refuse.remove(pos);
+                if self.rings[idx].req(*serial).is_some_and(|r| !r.done) {
+                    self.rings[idx].complete(*serial, -e, 0, false);
+                }
+                if self.rings[idx].flags & abi::SETUP_SUBMIT_ALL == 0 {
+                    break;
+                }
+            }
         }
         if !serials.is_empty() {
             self.rings[idx].publish_sq_head();
